@@ -107,6 +107,48 @@ def declOk (avail : List Crate) (name : String) : Container → Bool
 
 def misordered (avail : List Crate) (r : Reg) : List String := (r.filter fun e => !declOk avail e.1 e.2).map (·.1)
 
+/-! the structural condition under which closedness is proved (Props/C20.lean `closed_partial`), stated on the edge
+    relation the formatter is given, before any container is built -/
+
+/-- the name under which a `container` rule fires for source node `x`, by kind and serde name alone -/
+def produces (E : Edges) (x : Node) : Option String :=
+  match x.item.serdeName with
+  | none => none
+  | some n =>
+    match x.item.kind with
+    | .structUnit | .structPlain _ | .structTuple _ => some n
+    | .enum _ => if (variantSet E x).isEmpty then none else some n
+    | _ => none
+
+def defined (E : Edges) : List String :=
+  (E.map (·.1)).filterMap (produces E) ++ (ranges E).map (·.1) ++ ["Request"]
+
+def nodesOf (E : Edges) : List Node := E.flatMap fun e => [e.1, e.2]
+
+def fieldRefs (E : Edges) : List String :=
+  (nodesOf E).flatMap fun x => (fieldSet E x).flatMap fun f =>
+    match fieldFormat f.item with
+    | some fm => Format.typeNames fm
+    | none => []
+
+/-- type names some reachable field refers to, those of `Range` arguments, and `Effect` (formatter.rs:321) -/
+def referenced (E : Edges) : List String :=
+  fieldRefs E ++ (ranges E).flatMap (fun e => Container.typeNames e.2) ++ ["Effect"]
+
+/-- every referenced type name is the name of a reachable struct, of a reachable enum with a reachable variant,
+    `Range` (when a range field is reachable) or `Request` -/
+def resolvable (E : Edges) : Bool := (referenced E).all fun n => (defined E).contains n
+
+/-- no two containers of different shape compete for one name (compared in canonical token form) -/
+def noClash (r : Reg) : Bool := r.all fun a => r.all fun b => a.1 != b.1 || Container.toks a.2 == Container.toks b.2
+
+/-- the side conditions of the theorems of Props/C20.lean that concern the edge relation; `none` = all met -/
+def unmetHypothesis (E : Edges) : Option String :=
+  if !variantsWF E then some "variantsWF"
+  else if !resolvable E then some "resolvable"
+  else if !noClash (containers E) then some "noClash"
+  else none
+
 /-! cases and observations of the `cli` engine -/
 
 inductive Case where
@@ -121,11 +163,11 @@ inductive Obs where
   | other (cls : String)      -- err / panic / nondet / stale-description …
 
 def variantKey (variant : String) : String :=
-  match (variant.splitOn ":").head? with
-  | some "renum" => "depends-on-numbering"
-  | some "shuf" => "depends-on-map-order"
-  | some "order" => "depends-on-crate-order"
-  | some "mix" => "depends-on-numbering-and-order"
+  match String.ofList (variant.toList.takeWhile fun ch => ch != ':') with
+  | "renum" => "depends-on-numbering"
+  | "shuf" => "depends-on-map-order"
+  | "order" => "depends-on-crate-order"
+  | "mix" => "depends-on-numbering-and-order"
   | _ => "not-reproducible"
 
 /-- `none` = accepted -/
